@@ -25,6 +25,15 @@ def main():
         v = json.load(open(a.replay))
         sys.exit(mod.replay(v) if hasattr(mod, 'replay') else generic_replay(v))
     ctx = runner.Ctx(a.pid, tier, seed)
+    # replay files of an earlier run with the same seed must not be mistaken for this run's
+    import glob
+    for sub in ('replays', os.path.join('noproof', 'replays')):
+        for old in glob.glob(os.path.join(runner.VERIF, 'evidence', sub, '%s-%s-*.json' % (a.pid, seed))):
+            if (sub == 'replays') != bool(a.no_proof):
+                try:
+                    os.remove(old)
+                except OSError:
+                    pass
     if a.no_proof:
         runner.EVIDENCE_DIR = os.path.join(runner.VERIF, 'evidence', 'noproof')      # development runs never overwrite the evidence of record
         proof = {'obligations': 0, 'discharged': 0, 'problems': [], 'axioms': [], 'theorems': []}
